@@ -15,6 +15,8 @@ def key_of(execu, bad):
         return "Idx %s" % bad.get("op")
     if e == "Block":
         return "Block constructor %s" % ("returned" if bad.get("ret") else "exited")
+    if e == "BlockG":
+        return "Block grid constructor %s" % ("returned" if bad.get("ret") else "exited")
     if e == "Corner":
         return "scalar %s by %s" % (bad.get("op"), "a non-finite quotient" if not bad.get("fin") else "more than 2 ulp")
     return str(e)
@@ -32,6 +34,9 @@ def what_of(execu, bad):
     if bad.get("e") == "Corner":
         return "scalar division by %s: %s (every spelling must give entry/s to 2 ulp, finite where the quotient is finite); event %s" % (
             bad.get("scalar"), "non-finite or NaN result" if not bad.get("fin") else "%s ulp off" % bad.get("ulps"), json.dumps(bad)[:200])
+    if bad.get("e") == "BlockG":
+        return "block constructor on a %dx%d grid of blocks: %s; event %s" % (len(bad.get("G", [])), len(bad.get("G", [[]])[0]),
+            "returned although the partition is inconsistent, or returned another matrix than the definition" if bad.get("ret") else "terminated although the partition is consistent (or without diagnostic)", json.dumps(bad)[:300])
     if bad.get("e") == "Block":
         return "block constructor on blocks %s | %s / %s | %s: %s; event %s" % (
             shape(bad.get("A")), shape(bad.get("B")), shape(bad.get("C")), shape(bad.get("D")),
